@@ -317,20 +317,22 @@ var _ syncer.ChannelReader = (*liveFeeder)(nil)
 // ---------------------------------------------------------------------------------------
 
 type loopCfg struct {
-	Mode        config.ReplayMode
-	Window      uint
-	Filter      string // none | prefix-whitelist | prefix-blacklist | whitelist+cmd-blacklist
-	Snapshot    bool   // site A starts with a dataset
-	Restore     bool   // replay.replayRdbEnableRestore
-	Version     string // Redis version of both doubles (propagation wraps single-command transactions below 7)
-	BufSize     int
-	Conflict    bool // a replication-lag window with conflicting writes on shared keys
-	LateReverse bool // link B→A starts after A→B finished its snapshot phase, from a snapshot of B's dataset at that moment
+	Mode         config.ReplayMode
+	Window       uint
+	Filter       string // none | prefix-whitelist | prefix-blacklist | whitelist+cmd-blacklist
+	Snapshot     bool   // site A starts with a dataset
+	Restore      bool   // replay.replayRdbEnableRestore
+	Version      string // Redis version of both doubles (propagation wraps single-command transactions below 7)
+	BufSize      int
+	Conflict     bool // a replication-lag window with conflicting writes on shared keys
+	Clients      int  // harness client connections per site
+	OpsPerClient int  // script length (steps) per client
+	LateReverse  bool // link B→A starts after A→B finished its snapshot phase, from a snapshot of B's dataset at that moment
 }
 
 func (c loopCfg) String() string {
-	return fmt.Sprintf("mode=%s window=%d filter=%s snapshot=%v restore=%v version=%s buf=%d conflict=%v late-reverse=%v",
-		c.Mode, c.Window, c.Filter, c.Snapshot, c.Restore, c.Version, c.BufSize, c.Conflict, c.LateReverse)
+	return fmt.Sprintf("mode=%s window=%d filter=%s snapshot=%v restore=%v version=%s buf=%d conflict=%v late-reverse=%v clients=%d ops=%d",
+		c.Mode, c.Window, c.Filter, c.Snapshot, c.Restore, c.Version, c.BufSize, c.Conflict, c.LateReverse, c.Clients, c.OpsPerClient)
 }
 
 const (
@@ -345,6 +347,8 @@ func (c loopCfg) filterConfig() config.FilterConfig {
 		return config.FilterConfig{KeyFilter: &config.FilterKeyConfig{PrefixKeyWhitelist: config.SliceString{whitePrefix}}}
 	case "prefix-blacklist":
 		return config.FilterConfig{KeyFilter: &config.FilterKeyConfig{PrefixKeyBlacklist: config.SliceString{blackPrefix}}}
+	case "cmd-blacklist":
+		return config.FilterConfig{CmdBlacklist: config.SliceString{blackCmd}}
 	case "whitelist+cmd-blacklist":
 		return config.FilterConfig{CmdBlacklist: config.SliceString{blackCmd}, KeyFilter: &config.FilterKeyConfig{PrefixKeyWhitelist: config.SliceString{whitePrefix}}}
 	}
@@ -361,6 +365,8 @@ func (c loopCfg) filteredOut(cmd string, args [][]byte) bool {
 		white = true
 	case "prefix-blacklist":
 		black = true
+	case "cmd-blacklist":
+		bcmd = true
 	case "whitelist+cmd-blacklist":
 		white, bcmd = true, true
 	}
